@@ -1494,7 +1494,13 @@ where
         // Per-token dedup buffer, reused across query terms so a multi-term
         // query does not reallocate a fresh map for every term.
         let mut valid: FxHashMap<u64, (f32, f32)> = FxHashMap::default();
-        for query_token in query_terms.keys() {
+        // In a fixed order: `query_terms` is a std `HashMap` with a fresh
+        // random state per call, and summing the f32 contributions of a
+        // multi-word query in a different order on every call made the same
+        // search over a static index return differently ranked lists.
+        let mut query_tokens: Vec<&String> = query_terms.keys().collect();
+        query_tokens.sort_unstable();
+        for query_token in query_tokens {
             if let Some(postings) = self.postings.get(query_token) {
                 // Single-pass: collect doc_id -> (tf, doc_len) for valid documents
                 // in one sweep over the postings.
